@@ -15,6 +15,9 @@ copy per placement ordered by lowest atom key; residues renumbered 1..n; _old_re
 particle's constituents and weights exactly the mapping's; an edge between particles of different placements
 iff some constituent atoms are bonded in the input; block interactions re-indexed; unmapped-atom warning
 iff an uncovered non-hydrogen atom exists; inconsistent-data warning iff two placements overlap.
+Modification mappings: residues carrying the label of a from-modification (anchor + one added atom) are mapped through a
+modification mapping that overlays the residue's particle (attribute replacement) and creates one new particle: exactly one
+created particle per modified residue, built from exactly the added atom, bonded to its residue's particle only.
 """
 import itertools
 
@@ -26,7 +29,8 @@ RULE = ("every (sequence, connectivity, key permutation, within-residue order, r
         "non-linear connectivity")
 ASSUMPTIONS = ["for a bead built from no atom the implementation may list atoms of its placement with weight 0; only positive "
                "weights and explicitly mapped zero-weight atoms are compared",
-               "modification mappings are not in this menu (they need the modification machinery of C14; stated limit)",
+               "modification mappings: one anchor + one added atom -> one overlaid and one created particle; the position of the created "
+               "particle in the output order is not judged",
                "for overlapping placements only the inconsistent-data warning is judged"]
 
 RES_ATOMS = {'A': ['a1', 'a2', 'a3'], 'B': ['b1', 'b2']}
@@ -335,11 +339,99 @@ def check(seq, shape, perm, inner_reverse, resid_scheme, extra, setname, stash, 
         acc.violation(sig, desc, case)
 
 
+def check_modification(seq, shape, perm, inner_reverse, modified, acc, sample=False):
+    """A modification mapping: residues of type A listed in `modified` carry an extra atom x1 bonded to a3 and the label of the
+    from-modification MODA; the mapping MODA -> MODB overlays bead BB (attribute replaced) and creates one new bead XB."""
+    import vermouth
+    from vermouth.map_parser import Mapping
+    from vermouth.molecule import Modification
+    from vermouth.processors.do_mapping import do_mapping
+    case = {'layer': 'modification', 'seq': ''.join(seq), 'shape': shape, 'perm': list(perm), 'inner_reverse': inner_reverse, 'modified': list(modified)}
+    ff_from, ff_to, mappings, specs = build_mappings('many-to-one')
+    mod_from = Modification(force_field=ff_from)
+    mod_from.name = 'MODA'
+    mod_from.add_node('a3', atomname='a3', PTM_atom=False)
+    mod_from.add_node('x1', atomname='x1', PTM_atom=True, modifications=[mod_from])
+    mod_from.add_edge('a3', 'x1')
+    mod_to = Modification(force_field=ff_to)
+    mod_to.name = 'MODB'
+    mod_to.add_node('BB', atomname='BB', PTM_atom=False, replace={'charge': -1})
+    mod_to.add_node('XB', atomname='XB', PTM_atom=True, atype='TX', resname='MOD')
+    mod_to.add_edge('BB', 'XB')
+    mod_to.add_interaction('bonds', ['BB', 'XB'], ['1', '0.2', '4000'])
+    mappings['fa']['fb'][('MODA',)] = Mapping(mod_from, mod_to, {'a3': {'BB': 1}, 'x1': {'XB': 1}}, {}, ff_from=ff_from, ff_to=ff_to,
+                                               names=('MODA',), type='modification')
+    mol, keys, resids, inter = build_molecule(ff_from, seq, shape, perm, inner_reverse, 'consecutive', None)
+    extra_tags = {}
+    for r in modified:
+        key = max(mol.nodes) + 1 if inner_reverse != 'front' else min(mol.nodes) - 1 - r
+        mol.add_node(key, atomname='x1', resname='A', resid=resids[r], chain='A', element='C', tag='%d:x1' % r, PTM_atom=True)
+        mol.add_edge(key, keys[(r, 'a3')])
+        extra_tags[r] = key
+        for name in RES_ATOMS['A']:
+            mol.nodes[keys[(r, name)]]['modifications'] = [mod_from]
+        mol.nodes[key]['modifications'] = [mod_from]
+    try:
+        with common.LogCapture() as log:
+            out = do_mapping(mol, mappings, ff_to, attribute_keep=('chain',), attribute_stash=('resid',))
+    except Exception as err:   # pylint: disable=broad-except
+        acc.case(outcome='exc')
+        acc.violation('c01:mod-exception', 'do_mapping raised %r' % (err,), case)
+        return
+    problems = []
+    beads = [(k, d) for k, d in out.nodes(data=True)]
+    plain = [(k, d) for k, d in beads if d.get('atomname') == 'BB']
+    created = [(k, d) for k, d in beads if d.get('atomname') == 'XB']
+    if len(plain) != len(seq) or len(beads) != len(seq) + len(modified):
+        problems.append(('c01:mod-block-copies', '%d BB and %d XB particles for %d residues of which %d are modified' % (
+            len(plain), len(created), len(seq), len(modified))))
+    else:
+        bb_of_res = {}
+        for k, d in plain:
+            tags = {mol.nodes[m]['tag'] for m, w in d.get('mapping_weights', {}).items()}
+            res = {int(t.split(':')[0]) for t in tags}
+            if len(res) != 1:
+                problems.append(('c01:mod-constituents', 'BB particle built from atoms of residues %r' % (sorted(res),)))
+                break
+            bb_of_res[res.pop()] = (k, d)
+        if not problems:
+            for r in range(len(seq)):
+                k, d = bb_of_res[r]
+                want_charge = -1 if r in modified else None
+                if d.get('charge') != want_charge:
+                    problems.append(('c01:mod-replace', 'BB of residue %d has charge %r, the modification mapping says %r' % (r, d.get('charge'), want_charge)))
+                    break
+            seen = set()
+            for k, d in created:
+                cons = {mol.nodes[m]['tag']: w for m, w in d.get('mapping_weights', {}).items()}
+                if len(cons) != 1 or list(cons.values()) != [1] or not list(cons)[0].endswith(':x1'):
+                    problems.append(('c01:mod-constituents', 'created particle XB records %r, the mapping assigns exactly its x1 atom with weight 1' % (cons,)))
+                    break
+                r = int(list(cons)[0].split(':')[0])
+                seen.add(r)
+                nbrs = set(out[k])
+                if nbrs != {bb_of_res[r][0]}:
+                    problems.append(('c01:mod-edges', 'created particle of residue %d is bonded to %r, expected only its BB %r' % (r, sorted(nbrs), bb_of_res[r][0])))
+                    break
+                bonds = [tuple(i.atoms) for i in out.interactions.get('bonds', []) if k in i.atoms]
+                if bonds != [(bb_of_res[r][0], k)]:
+                    problems.append(('c01:mod-interactions', 'bonds of the created particle of residue %d: %r' % (r, bonds)))
+                    break
+            if not problems and seen != set(modified):
+                problems.append(('c01:mod-block-copies', 'modified residues %r, created particles for %r' % (sorted(modified), sorted(seen))))
+    acc.case(nontrivial=bool(modified), outcome=('mod', len(beads), len(created)), sample=case if sample else None)
+    for sig, desc in problems[:1]:
+        acc.violation(sig, desc, case)
+
+
 def work(task):
     common.bind_repo()
     acc = Acc()
     for n, item in enumerate(task):
-        check(*item, acc, sample=(acc.states % 5003 == 0))
+        if item[0] == 'modification':
+            check_modification(*item[1:], acc, sample=(acc.states % 1009 == 0))
+        else:
+            check(*item, acc, sample=(acc.states % 5003 == 0))
     return acc
 
 
@@ -372,6 +464,17 @@ def cases(tier):
 def run(ctx):
     ctx.bound = {'residues': 3 if ctx.quick else 4, 'mapping_sets': list(MAPSETS)}
     items = cases(ctx.tier)
+    # modification mappings: every subset of the A residues modified
+    max_len = 3 if ctx.quick else 4
+    for n in range(1, max_len + 1):
+        for seq in itertools.product('AB', repeat=n):
+            a_res = [i for i, r in enumerate(seq) if r == 'A']
+            for k in range(0, len(a_res) + 1):
+                for modified in itertools.combinations(a_res, k):
+                    for shape in (['linear'] + (['star', 'ring'] if n >= 3 else [])):
+                        for perm in itertools.permutations(range(n)):
+                            for inner in (False, 'spread', 'front'):
+                                items.append(('modification', seq, shape, perm, inner, modified))
     acc = Acc()
     for part in common.pmap(work, list(common.chunked(items, max(1, len(items) // 96)))):
         acc += part
@@ -381,6 +484,9 @@ def run(ctx):
 def replay(case):
     common.bind_repo()
     acc = Acc()
+    if case.get('layer') == 'modification':
+        check_modification(tuple(case['seq']), case['shape'], tuple(case['perm']), case['inner_reverse'], tuple(case['modified']), acc)
+        return [(s, d) for s, d, _ in acc.violations]
     check(tuple(case['seq']), case['shape'], tuple(case['perm']), case['inner_reverse'], case['resids'], case['extra'],
           case['mapset'], case['stash'], acc)
     return [(s, d) for s, d, _ in acc.violations]
